@@ -1,6 +1,8 @@
 --------------------------- MODULE MC_ParserObject ---------------------------
 EXTENDS ParserObject
 TextsC == {"ok1", "ok2", "bad", "unsup"}
-TokLenC == [t \in TextsC |-> CASE t = "ok1" -> 2 [] t = "ok2" -> 1 [] t = "bad" -> 2 [] OTHER -> 0]
-ParseOKC == [t \in TextsC |-> t \in {"ok1", "ok2"}]
+ModesC == {"default", "padded"}
+\* "padded" keeps padding tokens: one more token in ok1; "unsup" is unsupported in every configuration
+TokLenC == [m \in ModesC |-> [t \in TextsC |-> CASE t = "ok1" -> (IF m = "padded" THEN 3 ELSE 2) [] t = "ok2" -> 1 [] t = "bad" -> 2 [] OTHER -> 0]]
+ParseOKC == [m \in ModesC |-> [t \in TextsC |-> t \in {"ok1", "ok2"}]]
 =============================================================================
